@@ -168,7 +168,7 @@ func c11OpenWorld(seed int64) (*gen.World, []gen.WeightedName, *model.Index, *c0
 var c11Clients = []struct{ ip, loc string }{{"203.0.113.9", ""}, {"10.1.0.5", "aa"}, {"10.2.0.5", "bb"}}
 
 func runC11(r *report.Run) {
-	r.SetRule("generated files with names carrying 1-8 address candidates (weights 0,1,2,3,7,10,100,2^32-1; all-zero, uniform and ratio shapes; A and AAAA; untagged and location-tagged; exact and wildcard owners) and NS/MX targets with several weighted addresses, on CDB/RocksDB v1/v2. Per configuration (name, type, client location, max-answer 1..8) N identical queries are sent from 16 goroutines; every response must hold <= max distinct records of the visible declared set, exactly min(max, positive-weight candidates) of them, never a weight-0 one, with NOERROR while the name has records. For max=1 and for additional-section addresses the selection counts are tested against w_i/sum(w) with a chi-square test, alarm only below p=1e-9. non-trivial = configuration with >=2 visible candidates; distinct by configuration")
+	r.SetRule("generated files with names carrying 1-8 address candidates (weights 0,1,2,3,7,10,100,2^32-1; all-zero, uniform and ratio shapes; A and AAAA; untagged and location-tagged; exact and wildcard owners) and NS/MX targets with several weighted addresses (also two MX records naming one host whose addresses are all of one family), on CDB/RocksDB v1/v2. Per configuration (name, type, client location, max-answer 1..8) N identical queries are sent from 16 goroutines; every response must hold <= max distinct records of the visible declared set, exactly min(max, positive-weight candidates) of them, never a weight-0 one, with NOERROR while the name has records. For max=1 and for additional-section addresses the selection counts are tested against w_i/sum(w) with a chi-square test, alarm only below p=1e-9. non-trivial = configuration with >=2 visible candidates; distinct by configuration")
 	r.Assume("statistical part: false-alarm probability < 1e-9 per tested configuration; a single short/weight-0 response per configuration (the implementation's 2^-32 boundary draws) is re-run and only a recurrence counts")
 	nworlds := r.Pick(3, 8)
 	nInv := r.Pick(150, 400)
@@ -287,7 +287,8 @@ func c11Additional(r *report.Run, servers *c01Servers, ix *model.Index, seed int
 		qtype   uint16
 		targets []string
 	}
-	for _, q := range []tq{{"x.deleg.example.com", dns.TypeA, []string{"nsd.example.com", "nse.example.com"}}, {"mxn.example.com", dns.TypeMX, []string{"mail.example.com"}}} {
+	for _, q := range []tq{{"x.deleg.example.com", dns.TypeA, []string{"nsd.example.com", "nse.example.com"}}, {"mxn.example.com", dns.TypeMX, []string{"mail.example.com"}},
+		{"mx2.example.com", dns.TypeMX, []string{"mail4.example.com"}}, {"mx3.example.com", dns.TypeMX, []string{"mail6.example.com", "mail.example.com"}}} {
 		for ci, c := range c11Clients {
 			sv := servers.srv[ci%len(servers.srv)]
 			counts := map[string]map[string]int64{}
